@@ -75,6 +75,7 @@ func (c *srvConn) clientClose() {
 	c.mu.Lock()
 	c.clientClosed = true
 	c.rBlocked = false
+	c.wBlocked = false
 	c.cond.Broadcast()
 	c.mu.Unlock()
 }
@@ -114,12 +115,21 @@ func (c *srvConn) Write(b []byte) (int, error) {
 		c.wPush++
 	}
 	fromLoop := packet.Type(typ) == packet.Heartbeat || packet.Type(typ) == packet.Data
-	for c.wstall && !c.closed && !c.wfail {
-		c.wBlocked = true
+	for c.wstall && !c.closed && !c.wfail && !c.clientClosed {
+		if fromLoop {
+			c.wBlocked = true
+		} else {
+			c.rBlocked = true // the reader, writing the handshake response itself
+		}
 		c.cond.Wait()
 	}
-	c.wBlocked = false
-	if c.closed || c.wfail {
+	if fromLoop {
+		c.wBlocked = false
+	} else {
+		c.rBlocked = false
+	}
+	if c.closed || c.wfail || (c.wstall && c.clientClosed) {
+		// closed here; injected failure; or the client, which had stopped reading, went away
 		if fromLoop {
 			c.wFailed++
 		}
@@ -144,6 +154,7 @@ func (c *srvConn) setWfail() {
 	c.mu.Lock()
 	c.wfail = true
 	c.wBlocked = false // the waker clears it (see rBlocked)
+	c.rBlocked = false
 	c.cond.Broadcast()
 	c.mu.Unlock()
 }
